@@ -417,6 +417,59 @@ Proof.
   - destruct Pb. apply inter_aa_le_r; lra.
 Qed.
 
+(* IoU = 0 exactly for disjoint-or-touching rectangles, IoU = 1 exactly for identical ones *)
+Lemma iou_aa_zero_iff a b : rect_pos a -> rect_pos b -> (iou_aa a b == 0 <-> rects_disjoint a b).
+Proof.
+  intros Pa Pb. split; [|apply iou_aa_disjoint].
+  intros H. unfold rects_disjoint.
+  destruct (Qlt_le_dec (x0 b) (x1 a)) as [H1|H1]; [|auto].
+  destruct (Qlt_le_dec (x0 a) (x1 b)) as [H2|H2]; [|auto].
+  destruct (Qlt_le_dec (y0 b) (y1 a)) as [H3|H3]; [|auto].
+  destruct (Qlt_le_dec (y0 a) (y1 b)) as [H4|H4]; [|auto].
+  pose proof (iou_aa_overlap_pos a b Pa Pb H2 H1 H4 H3). lra.
+Qed.
+
+Lemma ovl_full_l a0 a1 b0 b1 : a0 < a1 -> ovl a0 a1 b0 b1 == a1 - a0 -> b0 <= a0 /\ a1 <= b1.
+Proof. intros P. unfold ovl, qmax, qmin. q_cases; lra. Qed.
+Lemma ovl_full_r a0 a1 b0 b1 : b0 < b1 -> ovl a0 a1 b0 b1 == b1 - b0 -> a0 <= b0 /\ b1 <= a1.
+Proof. intros P. unfold ovl, qmax, qmin. q_cases; lra. Qed.
+
+Lemma prod_full u v w h : 0 <= u -> u <= w -> 0 <= v -> v <= h -> 0 < w -> 0 < h -> u * v == w * h -> u == w /\ v == h.
+Proof.
+  intros Hu Huw Hv Hvh Pw Ph E.
+  assert (A : 0 <= u * (h - v)) by (apply Qmult_le_0_compat; lra).
+  assert (B : 0 <= (w - u) * h) by (apply Qmult_le_0_compat; lra).
+  assert (D : (w - u) * h == 0) by lra.
+  assert (U : u == w).
+  { apply Qmult_integral in D. destruct D; lra. }
+  split; [exact U|].
+  assert (F : w * (h - v) == 0) by (rewrite <- U; lra).
+  apply Qmult_integral in F. destruct F; lra.
+Qed.
+
+Definition rect_eq (a b : rect) : Prop := x0 a == x0 b /\ y0 a == y0 b /\ x1 a == x1 b /\ y1 a == y1 b.
+
+Lemma iou_aa_one_iff a b : rect_pos a -> rect_pos b -> (iou_aa a b == 1 <-> rect_eq a b).
+Proof.
+  intros Pa Pb. pose proof Pa as [Ax Ay]. pose proof Pb as [Bx By]. split.
+  - intros H. unfold iou_aa in H.
+    apply iou_one_inv in H; try (now apply rect_area_pos); try apply inter_aa_nonneg;
+      try (apply inter_aa_le_l; lra); try (apply inter_aa_le_r; lra).
+    destruct H as [Ha Hb]. rewrite inter_aa_ovl in Ha, Hb. unfold rect_area in Ha, Hb.
+    apply prod_full in Ha; try apply ovl_nonneg; try (apply ovl_le_l; lra); try lra.
+    apply prod_full in Hb; try apply ovl_nonneg; try (apply ovl_le_r; lra); try lra.
+    destruct Ha as [Hax Hay], Hb as [Hbx Hby].
+    apply ovl_full_l in Hax, Hay; try assumption. apply ovl_full_r in Hbx, Hby; try assumption.
+    unfold rect_eq. repeat split; lra.
+  - intros (E0 & E1 & E2 & E3). unfold iou_aa. apply iou_one.
+    + now apply rect_area_pos.
+    + rewrite inter_aa_ovl. unfold rect_area.
+      rewrite (ovl_congr (x0 a) (x1 a) (x0 b) (x1 b) (x0 a) (x1 a) (x0 a) (x1 a)); try reflexivity; try (symmetry; assumption).
+      rewrite (ovl_congr (y0 a) (y1 a) (y0 b) (y1 b) (y0 a) (y1 a) (y0 a) (y1 a)); try reflexivity; try (symmetry; assumption).
+      rewrite !ovl_self by lra. reflexivity.
+    + unfold rect_area. rewrite E0, E1, E2, E3. reflexivity.
+Qed.
+
 (* yaw = 0 boxes *)
 Lemma rect_of_box_pos b : box_pos b -> rect_pos (rect_of_box b).
 Proof. intros (Hw & Hl & _). unfold rect_pos, rect_of_box. cbn [x0 x1 y0 y1]. halves. split; lra. Qed.
